@@ -12,6 +12,7 @@ package main
 //     property itself: a failure is a found input.
 
 import (
+	"crypto/sha512"
 	"fmt"
 	"os"
 	"path/filepath"
@@ -414,9 +415,58 @@ func runC03(ctx *Ctx) *Result {
 	if res.Broken != "" {
 		return res
 	}
+	c03Corpus(ctx, res)
+	if res.Broken != "" {
+		return res
+	}
 	c03Whole(ctx, res, rng.Fork())
 	res.Exhaustive = false
 	return res
+}
+
+// c03Corpus: the scenarios of the defects this check found (all repaired in /repo), always run first.
+func c03Corpus(ctx *Ctx, res *Result) {
+	type scenario struct {
+		name  string
+		files map[string]string
+		args  []string
+	}
+	distfile := "hello\n"
+	sum := fmt.Sprintf("%x", sha512.Sum512([]byte(distfile)))
+	scs := []scenario{
+		{"alternatives-logged-not-written", map[string]string{"cat/pkg/ALTERNATIVES": "bin/other bin/other-1.0\n"}, []string{"-F", "cat/pkg"}},
+		{"insert-below-unterminated-last-line", map[string]string{"distfiles/distfile-1.0.tar.gz": distfile,
+			"cat/pkg/distinfo": "$" + "NetBSD$\n\nSHA512 (distfile-1.0.tar.gz) = " + sum}, []string{"-F", "cat/pkg"}},
+		{"sort-unterminated-last-line", map[string]string{"cat/pkg/PLIST": "@comment $" + "NetBSD$\nbin/b\nbin/a"}, []string{"-F", "cat/pkg"}},
+		{"sort-with-inserted-cvs-id", map[string]string{"cat/pkg/PLIST": "bin/program\nbin/another\n"}, []string{"-F", "cat/pkg"}},
+		{"sort-with-inserted-cvs-id-examined-twice", map[string]string{"cat/pkg/PLIST": "bin/program\nbin/another\n"}, []string{"-F", "cat/pkg/PLIST", "cat/pkg"}},
+		{"silent-sort-under-only", map[string]string{"cat/pkg/PLIST": "@comment $" + "NetBSD$\nbin/b\nbin/a\n"}, []string{"-F", "--only", "sorted before", "cat/pkg"}},
+	}
+	for i, sc := range scs {
+		dir := filepath.Join(ctx.Work, fmt.Sprintf("corpus%d", i))
+		t := NewBaseTree(dir)
+		for rel, data := range sc.files {
+			t.Write(rel, data)
+		}
+		tree := readTree(dir)
+		cfg := wrConfig{Cwd: ".", Args: sc.args}
+		ev, _, err := c03RunOnce(ctx, dir, tree, cfg)
+		os.RemoveAll(dir)
+		if err != nil {
+			res.Broken = "corpus: " + err.Error()
+			return
+		}
+		res.Evaluations++
+		res.TracesValidated++
+		res.Count("W.corpus_scenarios", 1)
+		if ev.Abnormal != "" || len(ev.Undecided)+len(ev.UndecidedSort) > 0 {
+			res.AddViolation(Violation{Key: "C03/corpus/" + sc.name + "/undecided", What: "corpus scenario " + sc.name + " could not be judged: " + ev.Abnormal, FoundInput: false,
+				Replay: map[string]any{"broken": "corpus scenario not decidable", "scenario": sc.name}})
+		}
+		for _, p := range ev.Problems {
+			c03Report(ctx, res, tree, cfg, p, 0)
+		}
+	}
 }
 
 type pendingC03 struct {
